@@ -288,3 +288,260 @@ def reaching_defs(g, name: str, at: int) -> List[int]:
         if edge_path(g, [d], [at], avoid_nodes=others, strict=True) is not None:
             out.append(d)
     return out
+
+
+def pure_expr(v: ast.AST) -> bool:
+    """Value of a single-assignment local that may be substituted for the local when normalising
+    (named temporaries such as ``packetSize = 4 + packetLen``): names, constants, attribute chains,
+    integer arithmetic and len() over those.  No calls with effects, no subscripts of mutable buffers."""
+    if isinstance(v, (ast.Constant, ast.Name)):
+        return True
+    if isinstance(v, ast.Attribute):
+        return dotted(v) is not None
+    if isinstance(v, ast.BinOp) and isinstance(v.op, (ast.Add, ast.Sub, ast.Mult, ast.FloorDiv, ast.Mod)):
+        return pure_expr(v.left) and pure_expr(v.right)
+    if isinstance(v, ast.UnaryOp) and isinstance(v.op, (ast.USub, ast.UAdd)):
+        return pure_expr(v.operand)
+    if isinstance(v, ast.Call) and dotted(v.func) == "len" and len(v.args) == 1 and not v.keywords:
+        return pure_expr(v.args[0])
+    return False
+
+
+# ---- a small whitelisted interpreter for extracted functions (finite evaluation of models) -------------
+
+class ModelReturn(Exception):
+    pass
+
+
+class ModelBreak(Exception):
+    pass
+
+
+class ModelContinue(Exception):
+    pass
+
+
+class ModelError(Exception):
+    """the modelled code would raise at run time (AttributeError, IndexError, explicit raise...)"""
+
+
+_BYTES_METHODS = {"find", "rfind", "index", "count", "startswith", "endswith", "split", "rsplit", "strip", "rstrip", "lstrip", "join",
+                  "replace", "lower", "upper", "partition", "rpartition", "splitlines"}
+_LIST_METHODS = {"index", "count"}
+_SAFE = {"len": len, "ord": ord, "bytes": bytes, "int": int, "min": min, "max": max, "list": list, "tuple": tuple, "bool": bool, "range": range}
+
+
+class MiniInterp:
+    """Evaluates the statements of one extracted function over concrete values.  ``self.x`` reads/writes go
+    to ``attrs``; ``self.m(...)`` calls go to ``hooks[m](*args)`` (args that cannot be evaluated are passed as
+    None); everything outside the enumerated statement / expression forms raises AnalysisError (never a verdict).
+    No repository code is executed: only this interpreter's own semantics of the whitelisted forms."""
+
+    def __init__(self, func: ast.AST, attrs: dict, hooks: dict, consts: Optional[dict] = None, loop_bound: int = 10000):
+        self.func = func
+        self.attrs = attrs
+        self.hooks = hooks
+        self.consts = consts or {}
+        self.loop_bound = loop_bound
+
+    def call(self, *args):
+        names = [a.arg for a in self.func.args.args][1:]
+        self.loc = dict(zip(names, args))
+        try:
+            self._block(self.func.body)
+        except ModelReturn:
+            pass
+
+    # -- expressions
+    def ev(self, n):
+        if isinstance(n, ast.Constant):
+            return n.value
+        if isinstance(n, ast.Name):
+            if n.id in self.loc:
+                return self.loc[n.id]
+            if n.id in self.consts:
+                return self.consts[n.id]
+            if n.id in ("True", "False", "None"):
+                return {"True": True, "False": False, "None": None}[n.id]
+            raise AnalysisError(f"model: unknown name {n.id}")
+        if isinstance(n, ast.Attribute):
+            if isinstance(n.value, ast.Name) and n.value.id == "self":
+                if n.attr in self.attrs:
+                    return self.attrs[n.attr]
+                raise ModelError(f"AttributeError: {n.attr}")
+            raise AnalysisError(f"model: attribute {src(n)[:50]}")
+        if isinstance(n, (ast.Tuple, ast.List)):
+            vals = [self.ev(e) for e in n.elts]
+            return tuple(vals) if isinstance(n, ast.Tuple) else vals
+        if isinstance(n, ast.UnaryOp):
+            v = self.ev(n.operand)
+            if isinstance(n.op, ast.Not):
+                return not v
+            if isinstance(n.op, ast.USub):
+                return -v
+            raise AnalysisError("model: unary op")
+        if isinstance(n, ast.BoolOp):
+            v = None
+            for e in n.values:
+                v = self.ev(e)
+                if isinstance(n.op, ast.And) and not v:
+                    return v
+                if isinstance(n.op, ast.Or) and v:
+                    return v
+            return v
+        if isinstance(n, ast.BinOp):
+            a, b = self.ev(n.left), self.ev(n.right)
+            ops = {ast.Add: lambda: a + b, ast.Sub: lambda: a - b, ast.Mult: lambda: a * b, ast.Mod: lambda: a % b, ast.FloorDiv: lambda: a // b}
+            if type(n.op) in ops:
+                try:
+                    return ops[type(n.op)]()
+                except Exception as e:
+                    raise ModelError(f"{type(e).__name__}: {e}")
+            raise AnalysisError("model: binary op")
+        if isinstance(n, ast.Compare):
+            left = self.ev(n.left)
+            for op, r in zip(n.ops, n.comparators):
+                right = self.ev(r)
+                try:
+                    ok = {ast.Eq: lambda: left == right, ast.NotEq: lambda: left != right, ast.Lt: lambda: left < right, ast.LtE: lambda: left <= right,
+                          ast.Gt: lambda: left > right, ast.GtE: lambda: left >= right, ast.In: lambda: left in right, ast.NotIn: lambda: left not in right,
+                          ast.Is: lambda: left is right, ast.IsNot: lambda: left is not right}[type(op)]()
+                except TypeError as e:
+                    raise ModelError(f"TypeError: {e}")
+                if not ok:
+                    return False
+                left = right
+            return True
+        if isinstance(n, ast.IfExp):
+            return self.ev(n.body) if self.ev(n.test) else self.ev(n.orelse)
+        if isinstance(n, ast.Subscript):
+            v = self.ev(n.value)
+            try:
+                if isinstance(n.slice, ast.Slice):
+                    lo = self.ev(n.slice.lower) if n.slice.lower else None
+                    hi = self.ev(n.slice.upper) if n.slice.upper else None
+                    st = self.ev(n.slice.step) if n.slice.step else None
+                    return v[lo:hi:st]
+                return v[self.ev(n.slice)]
+            except (IndexError, KeyError, TypeError) as e:
+                raise ModelError(f"{type(e).__name__}: {e}")
+        if isinstance(n, ast.Call):
+            f = n.func
+            if isinstance(f, ast.Attribute) and isinstance(f.value, ast.Name) and f.value.id == "self":
+                if f.attr not in self.hooks:
+                    raise AnalysisError(f"model: call self.{f.attr}() has no hook")
+                args = []
+                for a in n.args:
+                    try:
+                        args.append(self.ev(a))
+                    except AnalysisError:
+                        args.append(None)
+                return self.hooks[f.attr](*args)
+            if n.keywords:
+                raise AnalysisError(f"model: keyword call {src(n)[:50]}")
+            if isinstance(f, ast.Name) and f.id in _SAFE:
+                try:
+                    return _SAFE[f.id](*[self.ev(a) for a in n.args])
+                except (TypeError, ValueError) as e:
+                    raise ModelError(f"{type(e).__name__}: {e}")
+            if isinstance(f, ast.Attribute):
+                recv = self.ev(f.value)
+                args = [self.ev(a) for a in n.args]
+                if isinstance(recv, (bytes, str)) and f.attr in _BYTES_METHODS or isinstance(recv, (list, tuple)) and f.attr in _LIST_METHODS:
+                    try:
+                        return getattr(recv, f.attr)(*args)
+                    except (ValueError, TypeError, IndexError) as e:
+                        raise ModelError(f"{type(e).__name__}: {e}")
+                if isinstance(recv, list) and f.attr in ("append", "extend", "pop"):
+                    try:
+                        return getattr(recv, f.attr)(*args)
+                    except IndexError as e:
+                        raise ModelError(f"IndexError: {e}")
+            raise AnalysisError(f"model: call {src(n)[:60]} not in the whitelist")
+        raise AnalysisError(f"model: expression {type(n).__name__} not in the whitelist")
+
+    # -- statements
+    def _assign(self, t, v):
+        if isinstance(t, ast.Name):
+            self.loc[t.id] = v
+        elif isinstance(t, ast.Attribute) and isinstance(t.value, ast.Name) and t.value.id == "self":
+            self.attrs[t.attr] = v
+        elif isinstance(t, (ast.Tuple, ast.List)):
+            vs = list(v)
+            if len(vs) != len(t.elts):
+                raise ModelError("ValueError: unpack")
+            for e, x in zip(t.elts, vs):
+                self._assign(e, x)
+        else:
+            raise AnalysisError(f"model: assignment target {src(t)[:40]}")
+
+    def _block(self, body):
+        for st in body:
+            self._stmt(st)
+
+    def _stmt(self, st):
+        if isinstance(st, ast.Expr):
+            if not isinstance(st.value, ast.Constant):
+                self.ev(st.value)
+        elif isinstance(st, ast.Pass):
+            pass
+        elif isinstance(st, ast.Assign):
+            v = self.ev(st.value)
+            for t in st.targets:
+                self._assign(t, v)
+        elif isinstance(st, ast.AugAssign):
+            self._assign(st.target, self.ev(ast.BinOp(left=_load(st.target), op=st.op, right=st.value)))
+        elif isinstance(st, ast.If):
+            self._block(st.body if self.ev(st.test) else st.orelse)
+        elif isinstance(st, ast.For):
+            n = 0
+            broke = False
+            for x in list(self.ev(st.iter)):
+                n += 1
+                if n > self.loop_bound:
+                    raise AnalysisError("model: loop bound")
+                self._assign(st.target, x)
+                try:
+                    self._block(st.body)
+                except ModelBreak:
+                    broke = True
+                    break
+                except ModelContinue:
+                    continue
+            if not broke:
+                self._block(st.orelse)
+        elif isinstance(st, ast.While):
+            n = 0
+            while self.ev(st.test):
+                n += 1
+                if n > self.loop_bound:
+                    raise AnalysisError("model: loop bound")
+                try:
+                    self._block(st.body)
+                except ModelBreak:
+                    break
+                except ModelContinue:
+                    continue
+        elif isinstance(st, ast.Return):
+            raise ModelReturn()
+        elif isinstance(st, ast.Break):
+            raise ModelBreak()
+        elif isinstance(st, ast.Continue):
+            raise ModelContinue()
+        elif isinstance(st, ast.Raise):
+            raise ModelError("raise " + src(st)[:50])
+        elif isinstance(st, ast.Delete):
+            for t in st.targets:
+                if isinstance(t, ast.Name):
+                    self.loc.pop(t.id, None)
+                elif isinstance(t, ast.Attribute) and isinstance(t.value, ast.Name) and t.value.id == "self":
+                    self.attrs.pop(t.attr, None)
+                else:
+                    raise AnalysisError("model: del form")
+        else:
+            raise AnalysisError(f"model: statement {type(st).__name__} not in the whitelist")
+
+
+def _load(t):
+    n = ast.parse(src(t), mode="eval").body
+    return n
